@@ -245,6 +245,100 @@ def run_scenario(env, kind, scenario, scratch, bound, budget, viol, stats, only_
                         if not file_backed:
                             break          # without file operations there is one point only
 
+        # directed schedules, second family: task a is stopped k file-operation points INSIDE its store of K, every other
+        # task then runs to completion one after the other (it sees the half-written entry), then a finishes
+        if file_backed:
+            for K in stored_keys:
+                for a in range(ntasks):
+                    for order in ([None] if ntasks == 2 else [False, True]):
+                        for k in range(1, 40):
+                            st = {"phase": 0, "inside": False, "n": 0, "reached": False}
+                            others = [t for t in range(ntasks) if t != a]
+                            if order:
+                                others.reverse()
+
+                            def inside(enabled, last, pend, st=st, a=a, K=K, k=k, others=others):
+                                if st["phase"] == 0:
+                                    if last == a and a in enabled:
+                                        if st["inside"]:
+                                            if pend is None or not str(pend[0]).startswith("fs:"):
+                                                st["phase"] = 1      # a left its store before k points
+                                            else:
+                                                st["n"] += 1
+                                                if st["n"] >= k:
+                                                    st["phase"] = 1
+                                                    st["reached"] = True
+                                        elif pend is not None and pend[0] == "store" and str(pend[1]).lstrip("/") == K:
+                                            st["inside"] = True
+                                    if st["phase"] == 0:
+                                        return a if a in enabled else enabled[0]
+                                for t in others:
+                                    if t in enabled:
+                                        return t
+                                return a if a in enabled else enabled[0]
+
+                            policy_box[0] = inside
+                            try:
+                                sch = run_schedule([])
+                            finally:
+                                policy_box[0] = None
+                            if not st["reached"]:
+                                break
+                            stats["directed"] = stats.get("directed", 0) + 1
+                            yield sch
+
+        # third family (three tasks): a is stopped k points inside its store of K, b is run up to (not into) its own store
+        # of K - it has then filed the final metadata of its evaluation - and c runs to completion in that window
+        if file_backed and ntasks == 3:
+            import itertools
+
+            for K in stored_keys:
+                for (a, b, c) in itertools.permutations(range(3)):
+                    for k in range(1, 40):
+                        st = {"phase": 0, "inside": False, "n": 0, "reached": False}
+
+                        def window(enabled, last, pend, st=st, a=a, b=b, c=c, K=K, k=k):
+                            def is_store(p):
+                                return p is not None and p[0] == "store" and str(p[1]).lstrip("/") == K
+                            if st["phase"] == 0:
+                                if last == a and a in enabled:
+                                    if st["inside"]:
+                                        if pend is None or not str(pend[0]).startswith("fs:"):
+                                            st["phase"] = 1
+                                        else:
+                                            st["n"] += 1
+                                            if st["n"] >= k:
+                                                st["phase"] = 1
+                                                st["reached"] = True
+                                    elif is_store(pend):
+                                        st["inside"] = True
+                                if st["phase"] == 0:
+                                    if a in enabled:
+                                        return a
+                                    st["phase"] = 1
+                            if st["phase"] == 1:
+                                if b in enabled and not (last == b and is_store(pend)):
+                                    return b
+                                st["phase"] = 2
+                            if st["phase"] == 2:
+                                if c in enabled:
+                                    return c
+                                st["phase"] = 3
+                            for t in (b, a, c):
+                                if t in enabled:
+                                    return t
+                            return enabled[0]
+
+                        policy_box[0] = window
+                        try:
+                            sch = run_schedule([])
+                        finally:
+                            policy_box[0] = None
+                        if not st["reached"]:
+                            break
+                        stats["directed"] = stats.get("directed", 0) + 1
+                        yield sch
+
     for s in all_runs():
         stats["evaluations"] += 1
         h = hashlib.sha1(repr(s.trace).encode()).hexdigest()[:12]
